@@ -427,7 +427,8 @@ MODLVL == Fam("mod",
        "@x = global i32 0\n@y = global i32 0\n@a = alias i32, i32* select (i1 true, i32* @x, i32* @y)\n@b = alias i32, i32* getelementptr (i32, i32* @x, i64 0)",
        "declare i32 @foo()\ndeclare i32 @bar(i32, ...)\ndefine i32 @c(i32 %x) personality i32 (...)* @pers {\n  %a = call i32 (...) bitcast (i32 ()* @foo to i32 (...)*)()\n  %b = call i32 (...) bitcast (i32 ()* @foo to i32 (...)*)(i32 %x)\n  %c = call i32 (i32, ...) @bar(i32 %x)\n  %d = call i32 (i32, ...) @bar(i32 %x, i32 %a)\n  %e = call i32 (i32, ...) bitcast (i32 ()* @foo to i32 (i32, ...)*)(i32 %b)\n  %f = invoke i32 (...) bitcast (i32 ()* @foo to i32 (...)*)()\n          to label %ok unwind label %lp\nok:\n  ret i32 %f\nlp:\n  %l = landingpad { i8*, i32 }\n          cleanup\n  ret i32 %c\n}\ndeclare i32 @pers(...)",
        "%v = type <vscale x 4 x i32>\ndefine %v @f(%v %a) {\n  %r = add %v %a, %a\n  ret %v %r\n}",
-       "!0 = !DIBasicType(name: \"x\", size: 32, encoding: 200)\n!1 = !DISubroutineType(cc: 250, types: null)\n!3 = !DIFile(filename: \"a\", directory: \"b\")\n!4 = distinct !DICompileUnit(language: 36000, file: !3)\n!5 = !DICompositeType(tag: DW_TAG_structure_type, name: \"S\", runtimeLang: 999)\n!llvm.dbg.cu = !{!4}\n!t = !{!0, !1, !5}\n!llvm.module.flags = !{!9}\n!9 = !{i32 2, !\"Debug Info Version\", i32 3}"
+       "!0 = !DIBasicType(name: \"x\", size: 32, encoding: 200)\n!1 = !DISubroutineType(cc: 250, types: null)\n!3 = !DIFile(filename: \"a\", directory: \"b\")\n!4 = distinct !DICompileUnit(language: 36000, file: !3)\n!5 = !DICompositeType(tag: DW_TAG_structure_type, name: \"S\", runtimeLang: 999)\n!llvm.dbg.cu = !{!4}\n!t = !{!0, !1, !5}\n!llvm.module.flags = !{!9}\n!9 = !{i32 2, !\"Debug Info Version\", i32 3}",
+       "define void @g() addrspace(1) {\nentry:\n  br label %bb\nbb:\n  ret void\n}\n@e = global i8 addrspace(1)* blockaddress(@g, %bb)\ndefine void @h() {\n  indirectbr i8 addrspace(1)* blockaddress(@g, %bb), []\n}"
      >>) >>,
   {}, FALSE)
 
